@@ -773,3 +773,56 @@ def hamiltonian_refresh(ctx) -> None:
                    "from the new matrix (or the new matrix is not remembered): the run keeps evolving with the SLM-masked "
                    "interactions after the mask has ended", entry=f.qualname)
     ctx.require(changed >= 1 and same_ >= 1, "INTERACT-refresh: matrix comparison paths not found in timestep_complete")
+
+
+def sv_initial_hamiltonian(ctx) -> None:
+    """SVBackendImpl._apply_observables builds a Hamiltonian for the callbacks only while no step has produced one
+    (`not self._current_H`): it is the Hamiltonian of the step about to start — drive rows of that step and the
+    interaction matrix at a time inside it.  Rebuilding it when one exists would hand every energy observable the
+    Hamiltonian of row 0."""
+    prog = ctx.prog
+    K = prog.cls("emu_sv.sv_backend_impl.SVBackendImpl")
+    f = K.methods["_apply_observables"]
+    it = Interp(prog, K, inline=lambda c, r, d: False, loop_iters=(1,))
+    k = ("param", f.qualname, "step_idx")
+    T = ("attr", SELF, "target_times")
+    cur = ("attr", SELF, "_current_H")
+    n = 0
+    for p in it.run(f):
+        gh = [e for e in p.events if e.kind == "call" and e.name.endswith("get_hamiltonian")]
+        for e in gh:
+            n += 1
+            kw = dict(e.kw) if e.kw else dict(e.args)
+            guarded = any(strip_typed(c) == cur and t is False for c, t in p.cond_log[: e.ncond])
+            ctx.ob("STEP-sv", "initial Hamiltonian only when none exists", e.loc(), guarded,
+                   "the callbacks' Hamiltonian is built only while no time step has produced one" if guarded else
+                   "_apply_observables rebuilds self._current_H although a step has already stored the Hamiltonian of "
+                   "the current time: energy observables are evaluated with the drives of row 0", entry=f.qualname)
+            rows = {}
+            for role, field in (("omegas", "omega"), ("deltas", "delta"), ("phis", "phi")):
+                v = strip_typed(kw.get(role, ("const", None)))
+                rows[role] = v[0] == "sub" and strip_typed(v[1]) == ("attr", SELF, field) and \
+                    (is_const(v[2], 0) or strip_typed(v[2]) == k)
+            okr = all(rows.values())
+            ctx.ob("ROLE-sv", "initial Hamiltonian drive rows", e.loc(), okr,
+                   "omegas/deltas/phis = row of the first step of self.omega/self.delta/self.phi" if okr else
+                   f"initial Hamiltonian built from {({r: show(kw.get(r, ('const', None)))[:30] for r in rows})}",
+                   entry=f.qualname)
+            im = strip_typed(kw.get("interaction_matrix", ("const", None)))
+            okt = False
+            if im[0] in ("mcall", "vcall") and (im[3] if im[0] == "mcall" else im[2]):
+                targ = (im[3] if im[0] == "mcall" else im[2])[0]
+                li = linear_in(targ, [("sub", T, k), ("sub", T, ("bin", "Add", k, ("const", 1)))])
+                if li is not None:
+                    a, b, c0 = (complex(x) for x in li)
+                    okt = abs(a + b - 1) < 1e-12 and abs(a.imag) + abs(b.imag) < 1e-12 and a.real >= -1e-12 and b.real >= -1e-12 and abs(c0) < 1e-12
+            ctx.ob("STEP-sv", "initial Hamiltonian interaction time", e.loc(), okt,
+                   "the interaction matrix is taken at a time inside the step about to start" if okt else
+                   f"the interaction matrix of the initial Hamiltonian is queried at {show(im)[:90]}, not at a convex "
+                   f"combination of T[k] and T[k+1]", entry=f.qualname)
+            st = [x for x in p.events if x.kind == "setattr" and x.name == "_current_H" and x.target[0] == SELF]
+            oks = len(st) == 1 and strip_typed(st[0].value) == strip_typed(e.result)
+            ctx.ob("STEP-sv", "initial Hamiltonian stored", e.loc(), oks,
+                   "the Hamiltonian handed to the callbacks is the one just built" if oks else
+                   "the freshly built Hamiltonian is not stored in self._current_H before the callbacks run", entry=f.qualname)
+    ctx.require(n >= 1, "STEP-sv: get_hamiltonian call in _apply_observables not found")
